@@ -17,7 +17,14 @@ A witness `w` of `sqrt x` is a number with `0 ≤ w` and `w * w = x`.
   T_C08_arc3_side_partial one direction of the (false) equivalence `0 ≤ test ↔ interior`: an "exterior" decision is always right
   T_C08_arc3_side_counterexample   … an "interior" decision is not (known finding, same as blockMesh)
   T_C08_chord           polyline length ≥ distance of the end points (every point list, every witness list)
-The `acos` step (arc length = radius × angle) is validator-checked only.
+Round 6 (over ℝ, Mathlib's arccos):
+  T_C08_arc3_centre_unique / _circle   the computed centre is the unique circumcentre; for circle points it is the circle's centre
+  T_C08_arc3_length_real   arc_length_3point as modelled (Real.sqrt / clip / Real.arccos, the code's side test) = radius × angle for
+                           circle points at 0 < ψ < θ < 2π, provided θ ≤ π or ψ < π
+  T_C08_arc3_length_real_beyond / _iff   … and r·(2π − θ) ≠ r·θ otherwise: the hypothesis is exactly the complement of the known finding
+  T_C08_specs_real         ArcEdge through the point at θ/2, Angle(θ, axis) for every witness choice, Origin (flatness 1) give the same
+                           third point, the circle's centre and radius, and the length r·θ
+  T_C08_tie_theta_guard / _arc3 / _origin / _valid   the model agrees with guards, constants, defaults regenerated from the source text
 -/
 import CBV.Lemmas.C08
 import CBV.Lemmas.C08Real
